@@ -275,13 +275,29 @@ impl Args {
     }
 }
 
+/// A panic that escapes a driver: if it was raised inside the library (location outside the harness sources) it is
+/// an observation — a library call the driver made on input it considered well-formed panicked — and is reported as
+/// such; if it was raised by harness code it is a harness bug and the process fails (=> inconclusive, never a verdict).
+fn escaped_panic(m: &mut Mon, msg: String) {
+    let in_harness = msg.contains("@ src/") || msg.contains("/verif/") || msg.contains("harness/src");
+    if in_harness {
+        eprintln!("harness panic: {}", msg);
+        std::process::exit(101);
+    }
+    m.notes.push("driver aborted early by an unguarded library panic".to_string());
+    let mm = msg.clone();
+    m.panic("library panic in an unguarded call of the driver", &msg, || serde_json::json!({"message": mm}));
+}
+
 /// entry point of an online-monitor binary
 pub fn main_online(run: fn(&Args, &mut Mon)) {
     let a = Args::parse();
     install_panic_hook();
     let t0 = std::time::Instant::now();
     let mut m = Mon::new(&a.prop);
-    run(&a, &mut m);
+    if let Err(msg) = guard(|| run(&a, &mut m)) {
+        escaped_panic(&mut m, msg);
+    }
     let wall = t0.elapsed().as_secs_f64();
     m.finish(&a.out, &a.hashes, wall);
 }
@@ -296,12 +312,16 @@ pub fn main_offline(drive: fn(&Args, &mut Mon, &mut crate::events::Sink)) {
     let mut m = Mon::new(&a.prop);
     if a.out == "-" {
         let mut sink = crate::events::Sink::stdout();
-        drive(&a, &mut m, &mut sink);
+        if let Err(msg) = guard(|| drive(&a, &mut m, &mut sink)) {
+            escaped_panic(&mut m, msg);
+        }
         let wall = t0.elapsed().as_secs_f64();
         sink.finish(m, wall);
     } else {
         let mut sink = crate::events::Sink::null();
-        drive(&a, &mut m, &mut sink);
+        if let Err(msg) = guard(|| drive(&a, &mut m, &mut sink)) {
+            escaped_panic(&mut m, msg);
+        }
         m.evaluations = m.evaluations.max(sink.n);
         // canaries of the offline lane are judged by the oracle, not here
         m.canaries_fed = 0;
